@@ -17,6 +17,7 @@ import pymbolic.mapper as mapmod
 
 from ..core import check, short
 from ..gen import expr as G
+from ..mon import streams
 from ..mon.trace import HandlerTrace
 from ..ref import normal, refsem
 from .c01 import ref_eq
@@ -218,6 +219,53 @@ def _c_subst(ctx, case):
         check_identity(ctx, case, name, False, e, got, smap, all_subs)
 
 
+def stream_rows(seed, n):
+    import random
+    r = random.Random(seed)
+    ag = G.AnyGen(r, names="xyzab")
+    for i in range(n):
+        ag.pool = []
+        if r.random() < 0.5:
+            yield p.Sum((p.Product((i + 2, p.Variable("xyz"[i % 3]))),
+                         p.Power(p.Variable("xyz"[(i + 1) % 3]), 1 + i % 2), i))
+        else:
+            e = ag.gen(r.randint(1, 3))
+            yield e if isinstance(e, p.Expression) else p.Sum((p.Variable("x"), i))
+
+
+@check("C08.stream")
+def c_stream(ctx, case):
+    """ONE mapper object over a stream of temporaries (each row is dropped before the next is
+    built, so node addresses are recycled): the answer depends on the row's value only."""
+    seed, n, d = case
+    smap = list(d.items())
+    for name, cached, cls in (("plain", False, SubstitutionMapper),
+                              ("cached", True, CachedSubstitutionMapper)):
+        m = cls(make_subst_func(d))
+
+        def judge(i, e, name=name, cached=cached, m=m):
+            ctx.case(None)
+            ctx.count("stream:" + name)
+            want = refsub(e, smap)
+            try:
+                got = m(e)
+            except RecursionError:
+                raise
+            except Exception as ex:  # noqa: BLE001
+                ctx.fail("C08.stream", case, f"{name}:raised:{type(ex).__name__}",
+                         f"row {i}: {name} raised {type(ex).__name__}: {ex} on e={G.src(e)}")
+                return
+            if not (ref_eq(got, want) if cached else normal.typed_eq(got, want)):
+                want_c = refsub(e, smap, collapse_cse=True)
+                explained = (ref_eq(got, want_c) if cached else normal.typed_eq(got, want_c)) \
+                    and has_zero_cse(e, smap)
+                ctx.fail("C08.stream", case, f"{name}:tree-differs",
+                         f"row {i} of a stream of temporaries through one {name} mapper with "
+                         f"map={_m(d)}: e={G.src(e)} gave {G.src(got)}, independent rewrite gives "
+                         f"{G.src(want)}", finding=KF_CSE0 if explained else None)
+        streams.each(ctx, stream_rows(seed, n), judge)
+
+
 def _m(d):
     return "{" + ", ".join(f"{(k if isinstance(k, str) else G.src(k))!s}: {G.src(v)}"
                            for k, v in d.items()) + "}"
@@ -373,6 +421,12 @@ def workload(ctx):
             if i < 3:
                 ctx.sample("structure", f"e={G.src(e)} map={_m(d)} kwargs={_m(kw)}")
             ctx.run("C08.subst", (e, d, kw))
+        X, Y = p.Variable("x"), p.Variable("y")
+        for i in range(ctx.per_shard(ctx.pick(24, 400))):
+            d = rng.choice([{"x": Y, "y": X, "z": p.Sum((X, 1))}, {"x": p.Product((2, Y))},
+                            {X: p.Variable("z"), "q": 5}, {"a": p.Subscript(X, (Y,)), "y": 0}])
+            ctx.case(("stream", i), True, n=0)
+            ctx.run("C08.stream", (rng.getrandbits(32), rng.randint(20, 120), d))
         tg = G.TypedGen(rng, hist=ctx.hist)
         for i in range(ctx.per_shard(ctx.pick(2500, 50000))):
             tg.pool = {"int": [], "num": [], "bool": []}
@@ -397,6 +451,8 @@ def workload(ctx):
             ctx.run("C08.value", (e, d, kw, envs))
         for k, v in tr.handlers().items():
             ctx.count("handler:" + k, v)
+    ctx.floor("stream:rows", 500)
+    ctx.floor("stream:row_address_reused", 100)
     ctx.floor("entry:plain", 2000)
     ctx.floor("entry:cached", 2000)
     ctx.floor("identity_checked", 5000)
